@@ -264,4 +264,51 @@ def readerGet (file : Bytes) (m : XMap) (hdrOff : Nat) (inflate : Bytes → Opti
         if n' != num || g' != gen then .error .malformed          -- "xref corrupted"
         else .ok (some o)
 
+
+/-! ### finding the cross-reference section (`findHeaderOffset`, `lastOccurence`, `findXRef`) -/
+
+/-- first index of `pat` in the input, counted from `i` -/
+def firstIdx (pat : Bytes) : Bytes → Nat → Option Nat
+  | [], _ => none
+  | c :: cs, i => if isPrefixOf pat (c :: cs) then some i else firstIdx pat cs (i + 1)
+
+/-- `Reader.lastOccurence`: the chunked backward search returns the last occurrence in the file -/
+def lastOccurrence (pat : Bytes) (data : Bytes) : Option Nat :=
+  (firstIdx pat.reverse data.reverse 0).map fun j => data.length - j - pat.length
+
+def kwStartxrefR : Bytes := [115, 116, 97, 114, 116, 120, 114, 101, 102]   -- "startxref"
+def kwPdfR : Bytes := [37, 80, 68, 70, 45]                                   -- "%PDF-"
+
+/-- `findHeaderOffset`: `%PDF-` within the first 1024 bytes -/
+def findHeaderOffset (file : Bytes) : Option Nat := firstIdx kwPdfR (file.take 1024) 0
+
+/-- `Reader.findXRef`: the number after the last `startxref`, checked against the file size -/
+def findXRef (file : Bytes) (hdrOff : Nat) : Except Err Nat :=
+  match lastOccurrence kwStartxrefR file with
+  | none => .error .malformed
+  | some pos =>
+    match readIntegerE (file.drop (pos + 9)) with
+    | .error e => .error e
+    | .ok (x, _) =>
+      if x ≤ 0 || x ≥ (file.length : Int) - hdrOff then .error .malformed
+      else .ok (x.toNat + hdrOff)
+
+/-- `Reader.readXRef` for a file with a single classic table (what the Writer produces without
+    object streams): the table and the trailer dictionary.  Files with `/Prev`, `/XRefStm` or a
+    cross-reference stream are outside this function (`Err.other`). -/
+def openTable (file : Bytes) : Except Err (XMap × List (Bytes × Obj)) :=
+  match findHeaderOffset file with
+  | none => .error .malformed
+  | some hdrOff =>
+    match findXRef file hdrOff with
+    | .error e => .error e
+    | .ok start =>
+      let sec := file.drop start
+      if !isPrefixOf kwXref sec then .error .other else
+      match readXRefTable [] sec with
+      | .error e => .error e
+      | .ok (m, tr, _) =>
+        if (tr.any fun e => e.1 == [80, 114, 101, 118] || e.1 == [88, 82, 101, 102, 83, 116, 109]) then .error .other
+        else .ok (m, tr)
+
 end PdfVerif.FIO
